@@ -115,7 +115,14 @@ pub fn oracle(prop: &str, case: &Case, outs: &[ImplRes]) -> Result<(), String> {
         "C01" => oracle_c01(case, outs),
         "C02" => oracle_c02(case, outs),
         "C03" => oracle_c03(case, outs),
-        "C04" => Ok(()), // decided against the model (proved equivalent to the grammar), see check_case
+        "C04" => {
+            // decided against the model (proved equivalent to the grammar), see check_case; the
+            // implementation-only wrong-arity family has a direct oracle
+            if case.family == "wrong-arity" && (outs[0].text.starts_with("ok:") || !outs[1].text.contains("err:")) {
+                return Err(format!("a message whose declared list length differs from the number of entries present was accepted: {}", short(outs[0].text)));
+            }
+            Ok(())
+        }
         "C05" => Ok(()),
         "C06" => oracle_c06(case, outs),
         "C07" => oracle_c07(case, outs),
@@ -261,6 +268,8 @@ fn tile_check(events: &[(usize, String)]) -> Result<(), String> {
                 }
                 b = i;
             }
+            // a new decoder (`Decoder::new` / `Decoder::from_buf`): accounting starts afresh
+            "N" | "B" => b = i,
             _ => return Err(format!("unexpected event {}", e)),
         }
     }
